@@ -24,7 +24,7 @@ METHODS = ('fixed-point', 'newton', 'linear')
 
 def bounds(tier):
     return {'max_free_entries': 3 if tier == 'quick' else 4, 'alphabet': ['0', '1/4', '1/2', '1', '2'],
-            'tolerances': [1e-3, 1e-6, 1e-12], 'starved_kmax': [0, 1, 2, 3]}
+            'tolerances': [1e-3, 1e-12, 0.0], 'starved_kmax': [0, 1, 2, 3]}
 
 
 def gen_cases(tier, seed):
@@ -82,7 +82,7 @@ def run_case(case):
     shape = oracles.ext_shape(ir, start)
     for sem in SEMS:
         for method in METHODS:
-            tols = (1e-6,) if sem in ('bool', 'viterbi') else ((1e-3, 1e-6, 1e-12) if sem == 'real' else (1e-6,))
+            tols = (1e-6,) if sem in ('bool', 'viterbi') else ((1e-3, 1e-12, 0.0) if sem == 'real' else (1e-6,))
             for tol in tols:
                 cfg = (sem, method, tol, 1000)
                 if only is None or only == cfg:
@@ -192,7 +192,7 @@ def run_cfg(ir, w, lin, sem, method, tol, kmax, bl, vit, status, mpv, rho, r, ca
     if warned:
         r.excl['real/log: warned (budget exhausted)'] += 1
         return
-    if rho == 1.0 and err > 10 * math.sqrt(tol) * scale:
+    if rho == 1.0 and err > 10 * math.sqrt(max(tol, 2.3e-16)) * scale:      # a double root is only determined to sqrt(machine eps)
         r.bad('wrong-value', 'sum_product.sum_product', trig, 'critical grammar, %s %s tol=%g: got %r, least fixed point %r, error %g > 10*sqrt(tol); rules=%r w=%r' % (sem, method, tol, got.tolist(), exp.tolist(), err, ir['rules'], w), case, key)
         return
     if rho is None or rho > 0.95:
